@@ -245,6 +245,13 @@ func w1FindLongpoll(a *Aggregator, lh rpc.LongpollHandle) (where string, bucketT
 	return "none", 0, oldest, newest
 }
 
+// w1InsertsDisabled: the aggregator is in shutdown (DisableNewInsert was called).
+func w1InsertsDisabled(a *Aggregator) bool {
+	a.mu.Lock()
+	defer a.mu.Unlock()
+	return a.bucketsToSend == nil
+}
+
 // ---- unexported rpc.HandlerContext fields (only the library's own connections set them) ------
 
 var w1HctxLongpollOff, w1HctxReqTimeOff uintptr
